@@ -214,6 +214,13 @@ func (ls *listenServer) OnMoved(addr string, slot int32, s core.SConn, f *core.F
 	delete(f.Peer.Fd2Slot, s.Fd())
 	f.Peer.Fd2Slot[sConn.Fd()] = slot
 
+	if f.Type == codec.RspAsk {
+		// the importing node serves a migrating slot only for the command that
+		// immediately follows ASKING; its +OK has no owner and is dropped
+		asking := core.FragPool.Get()
+		asking.Req = append(asking.Req, Asking...)
+		sConn.EnqueueOutFrag(asking)
+	}
 	sConn.EnqueueOutFrag(f)
 }
 
